@@ -19,28 +19,34 @@ from framework import Case, Violation, VERIF
 
 ID = 'C06'
 LEAN_MODULE = 'PlasVerif.Properties.C06'
-LEVEL_TEXT = ('Lean 4 theorems over a line-by-line heap model of plasTeX/DOM (Model/Dom.lean). tree_reachable / inv_reachable / owner_reachable: after '
-              'every history, of any length, of append, insert, pop, removeChild, insertBefore, insertAfter, replaceChild, item assignment, extend '
-              '(single-node arguments, any index or reference) and of append/insert with fragment arguments (splicing), every child listed by a '
-              'non-fragment node names it as parentNode, nothing is listed twice, no node is its own descendant and every node keeps its creating '
-              'document, provided each argument is detached (or, for the three moving operations, a child of the receiver) and not an ancestor of '
-              'the receiver. *_refines_list: each of these operations equals the plain list operation of the list-of-lists model (l ++ [c], splice '
-              'at i, eraseIdx, erase, move-then-splice, replace, l ++ cs, splice of the fragment items in order) and leaves every other list alone; '
-              'setItem_out_of_range_raises describes the insert-then-raise behaviour outside the guard. Derived views: first_last, '
-              'siblings_are_neighbours, textContent_is_concat (concatenation in document order of the unfolded tree), '
-              'getElementsByTagName_is_preorder_filter. Normalisation (tree-level pop-all-then-rebuild algorithm): preserves text content, leaves no '
-              'adjacent text nodes, idempotent. Carried by the exhaustive + random correspondence only (kept as explicit statements): heap-level '
-              'normalize and cloneNode against the tree-level functions, compareDocumentPosition, and everything about attribute-held (self) fragments.')
+LEVEL_TEXT = ('Lean 4 theorems over a line-by-line heap model of plasTeX/DOM (Model/Dom.lean). forest_reachable: after every history, of any '
+              'length, of the sixteen editing operations (append, insert, pop, removeChild, insertBefore, insertAfter, replaceChild, item '
+              'assignment, extend; each with single-node and with fragment arguments, any index or reference) every child listed by a '
+              'non-fragment node names it as parentNode, nothing is listed twice, no node is its own descendant, every node keeps its creating '
+              'document, the heap stays well-formed and below every non-fragment node it is a tree -- provided each argument is detached (or, '
+              'for the moving operations, a child of the receiver), allocated and not an ancestor of the receiver. *_refines_list: every '
+              'operation equals the plain list operation of the list-of-lists model and leaves every other list alone; *_commutes: whenever the '
+              'executable Spec accepts an operation the model produces the child lists it predicts; setItem_out_of_range_raises (O3). Views: '
+              'first_last, siblings_are_neighbours, textContent_is_concat, getElementsByTagName_is_preorder_filter, also without the NoAlias '
+              'hypothesis (tree unfolded through childNodes; kernel-checked counterexample for the unrepaired getElementsByTagName). '
+              'clone_equal_disjoint: a deep clone has the same shape, disjoint node ids, no parent and is listed nowhere; the original is '
+              'untouched. normalize_refines_tree: heap-level normalize computes Tree.normalize (pop-all-then-rebuild) and touches nothing '
+              'outside the subtree; corollaries at heap level: text content preserved, no adjacent text nodes, idempotent. '
+              'compareDocumentPosition_agrees_all: for every pair of nodes whose parent chains are real list memberships the answer equals '
+              'the list model comparePos (same node, adjacent siblings, ancestor/descendant, two branches of one tree decided at the lowest '
+              'common ancestor, different trees). Carried by correspondence only: histories that contain normalize or cloneNode steps (kept as '
+              'an explicit statement) and edits through attribute-held (self) fragments.')
 LEVEL_NOTE = ('Trusted: Lean kernel (axioms propext, Classical.choice, Quot.sound), the correspondence harness (state-deduplicated exhaustive histories, '
-              'random histories to length 40), CPython. All theorems assume NoAlias (no node uses attributes[self] as its child list); aliasing is '
-              'exercised only by fixed corpus histories. Modelled not verified: plain str arguments (createTextNode shortcut), toXML, user data, '
-              'namespace stubs, importNode/adoptNode, __eq__/__lt__.')
-TECHNIQUE = 'Lean 4 proof (invariant + refinement over a heap model, induction over histories; mutual induction on trees) + differential correspondence'
-TRUSTED = ['heap-level normalize, cloneNode, compareDocumentPosition and the self-attribute aliasing are tied to the list model by the hist stream only']
+              'random histories to length 40), CPython. Editing theorems assume NoAlias (no node uses attributes[self] as its child list); the view '
+              'theorems do not. Theorems about clone/normalize/compare are stated for every unfolding depth below the recursion fuel of the driver '
+              '(next+2). Modelled not verified: plain str arguments (createTextNode shortcut), toXML, user data, namespace stubs, '
+              'importNode/adoptNode, __eq__/__lt__.')
+TECHNIQUE = 'Lean 4 proof (invariants + refinement over a heap model, induction over histories, allocation-frame arguments; mutual induction on trees) + differential correspondence'
+TRUSTED = ['edits through the self-attribute aliasing and histories containing normalize/cloneNode steps are tied to the list model by the hist stream only']
 ASSUMPTIONS = ['arguments are nodes (not plain str); every node is created by the one Document of the history',
                'operations that make the Python loop iterate a list it extends (fragment into itself) are not executed on the real code',
                'a history stops (both sides answer `cyclic`) as soon as a node becomes its own descendant; generators avoid such operations',
-               'theorems assume no attributes[self] aliasing (NoAlias); histories with aliasing are compared with the model and a Python oracle only']
+               'editing theorems assume no attributes[self] aliasing (NoAlias); histories with aliasing are compared with the model and a Python oracle only']
 RULE = ('exhaustive: breadth-first over all pool operations, histories reaching an already seen full observation are not extended; random: seeded '
         'histories to length 40 with ~15% malformed operations (out-of-range indexes, attached arguments, absent references); '
         'non-trivial = spec defined, no error, and at least one node has two or more children or a grandchild; distinct = distinct request line')
